@@ -9,7 +9,7 @@ RULE = ('random interleavings (8-30 operations quick, 12-56 thorough, 1-4 instan
         'placed again = new inode/ctime = new generation; refresh-by-rename while not ready; manifests the node '
         'cannot configure), readiness flips by the real EventMgr._cache_notify, delivery of the pending inotify '
         'events one at a time to the real AppCfgMgr handlers, containers ending on their own (real '
-        'MonitorContainerDown, flag_aborted, oom flag, SIGABRT), tombstone files left in tombstones/running by the '
+        'MonitorContainerDown with exit status 1, 0 / no signal = the service ran to completion, or killed by a signal; flag_aborted, oom flag, SIGABRT, SIGKILL of the container = nothing recorded), a node start soon after a container ended (its clean-up has not run, the instance is still placed here), the node monitor handing the NEXT container of an instance over while the clean-up job of the previous one is between its two steps (container directory removed, cleanup link not yet unlinked; real Monitor.run inside the real Cleanup.invoke), tombstone files left in tombstones/running by the '
         'supervisor for ended and for terminated containers at arbitrary later points, the real node monitor '
         '(treadmill.monitor.Monitor.run with MonitorContainerCleanup) as a restartable actor that re-reads the '
         'tombstone directory at every start, s6 control commands (svscan/svc) failing with CalledProcessError at '
@@ -18,7 +18,7 @@ RULE = ('random interleavings (8-30 operations quick, 12-56 thorough, 1-4 instan
         'starts; the real appcfg.configure runs '
         'for every container. After every handler call and every actor step the listing of running/, cleanup/, '
         'apps/ (+ exitinfo|aborted|oom flags) and cache/ is evaluated: I1 <= 1 link per container, I3 finished or '
-        'cleaned containers never gain a running link, I4 unfinished running container with unchanged cache '
+        'cleaned containers never gain a running link (finished = a flag on disk, or the real MonitorContainerDown ran for the container, or the environment ended it without any record - the last one only until the next node start), I4 unfinished running container with unchanged cache '
         'generation keeps its link across a handler, a manager crash and a monitor run, I5 handled delete => handed '
         'to cleanup, I2 after each '
         'idle->active synchronisation running links == configurable cached generations and stale generations are in '
@@ -69,6 +69,9 @@ REQUIRED_REACH = {'*': ['running_containers_checked_against_released_name_formul
     'i2_unconfigurable_evaluations', 'i4_unchanged_running_evaluations', 'i5_deleted_evaluations',
     'midsync_container_handed_to_cleanup_inside_synchronisation',
     'midsync_handover_right_before_a_look_at_its_running_link',
+    'self_finish_exitinfo0', 'self_finish_killed', 'i2_finished_unlinked_generation_evaluations_service_ran_to_completion',
+    'i2_finished_unlinked_generation_evaluations_oom', 'i2_finished_unlinked_generation_evaluations_aborted',
+    'cleanup_race_next_generation_handed_over_between_finish_and_unlink',
 ]}
 
 _MAX_SHRINKS = 3
